@@ -83,6 +83,9 @@ def _run(ctx, tmp):
     cases.append(('corpus', [-1e-9, 0.0, 5e-7, -5e-7, 1.0 / 128, -3.0 / 128], 0.005, 'ties and tiny'))
     cases.append(('corpus', [1234567.1234565, -1e6, 1e6 + 0.5], 0.02, 'large'))
     cases.append(('corpus', [0.1, 0.2, 0.3], 100.0, ''))
+    # long records (the format has no length limit): every value on its own line also beyond any block size
+    for n_long in ((5001, 10001) if quick else (5001, 10001, 20000, 65537)):
+        cases.append(('long', [((j * 37) % 2001 - 1000) / 64.0 for j in range(n_long)], 0.01, 'long record'))
     # the grid of the design: n x dt, labels and value kinds rotating
     idx = 0
     for n in (1, 2, 3, 50):
